@@ -410,6 +410,8 @@ class Contract:
     frame = True           # False: no frame obligations (contracts that state memory safety only)
     cases = (None,)
     loops = None           # {ordinal: LoopSpec}
+    roles = None           # {name the contract uses for a local: role}: resolved on the AST when no local of that name is in scope
+                           # (resolve_role: ("ivar", loop #) / ("counter", loop #) / ("array", "element type")), so renames keep the contract bound
 
     def params(self, c):
         raise NotImplementedError
@@ -575,6 +577,16 @@ class LoopSpec:
         c = E.ctx
         ordn = E.tu.loops_of(fr.fname)[s["id"]]
         tag = "loop%d" % ordn
+        if not hasattr(E, "loop_stack"):
+            E.loop_stack = []
+        E.loop_stack.append(s)
+        try:
+            return self._run(E, s, fr, cond, inc, body, ordn, tag)
+        finally:
+            E.loop_stack.pop()
+
+    def _run(self, E, s, fr, cond, inc, body, ordn, tag):
+        c = E.ctx
         entry = View(E, E.state.snapshot())
         E.extra.setdefault("loops_with_invariant", set()).add("%s#%d" % (fr.fname, ordn))
         for label, g in self._inv(E, fr, entry, "goal"):
@@ -659,7 +671,14 @@ class Locals:
         fr = self._fr
         did = self._names.get(name)
         if did is None or did not in self._vals:
-            raise Unsupported("contract refers to local %s which is not in scope in %s" % (name, fr.fname))
+            # the contract's name for the local is not in scope: resolve its ROLE on the AST (Contract.roles), so that a renamed local
+            # keeps its contract; roles that cannot be resolved uniquely leave the contract unbound (Unsupported -> out of reach)
+            role = (getattr(self._E.ctx.contract, "roles", None) or {}).get(name) if getattr(self._E, "ctx", None) is not None else None
+            did = resolve_role(self._E, fr, role) if role is not None else None
+            if did is not None and did in self._vals:
+                self._E.notes.add("local `%s` of the contract of %s bound by role %r to `%s`" % (name, fr.fname, role, self._E.tu.decl[did].get("name")))
+            else:
+                raise Unsupported("contract refers to local %s which is not in scope in %s%s" % (name, fr.fname, " (role %r not resolvable)" % (role,) if role else ""))
         v = self._vals[did]
         if isinstance(v, V):
             return v.z()
@@ -670,6 +689,81 @@ class Locals:
         if v is UNINIT:
             raise Unsupported("contract reads uninitialised local %s" % name)
         return v
+
+
+def _loop_node(E, fname, ordinal):
+    ids = {nid for nid, k in E.tu.loops_of(fname).items() if k == ordinal}
+    found = []
+
+    def walk(n):
+        if n.get("id") in ids and n.get("kind") in ("ForStmt", "WhileStmt", "DoStmt"):
+            found.append(n)
+        for c in n.get("inner", []):
+            if isinstance(c, dict):
+                walk(c)
+    walk(E.tu.functions[fname])
+    return found[0] if found else None
+
+
+def _modified_in(E, node):
+    return E.assigned_locals(node) if isinstance(node, dict) and node.get("kind") else set()
+
+
+def loop_ivar(E, loop):
+    """decl id of the induction variable of a for loop: the one local its increment expression modifies (if several: the one the
+    initialiser sets as well)"""
+    if loop is None or loop.get("kind") != "ForStmt":
+        return None
+    kids = loop.get("inner", [])
+    if len(kids) < 5:
+        return None
+    init, inc = kids[0], kids[3]
+    mod = _modified_in(E, inc)
+    if len(mod) == 1:
+        return next(iter(mod))
+    ini = _modified_in(E, init)
+    if isinstance(init, dict) and init.get("kind") == "DeclStmt":
+        ini |= {d["id"] for d in init.get("inner", []) if d.get("kind") == "VarDecl"}
+    both = mod & ini
+    return next(iter(both)) if len(both) == 1 else None
+
+
+def resolve_role(E, fr, role):
+    """role -> decl id (or None):  ("ivar", k) induction variable of loop #k of the function (k None: the loop whose contract is being
+    evaluated);  ("counter", k) the one integer local other than the induction variable that loop #k assigns;  ("array", "elem type")
+    the one local array of that element type"""
+    kind, arg = role
+    fname = fr.fname
+    if kind in ("ivar", "counter"):
+        loop = _loop_node(E, fname, arg) if arg is not None else (E.loop_stack[-1] if getattr(E, "loop_stack", None) else None)
+        iv = loop_ivar(E, loop)
+        if kind == "ivar":
+            return iv
+        if loop is None:
+            return None
+        cands = []
+        for did in _modified_in(E, loop):
+            d = E.tu.decl.get(did)
+            if did == iv or d is None or did not in fr.locals:
+                continue
+            try:
+                t = E.tt.parse(d["type"]["qualType"])
+            except Exception:
+                continue
+            if isinstance(t, TInt):
+                cands.append(did)
+        return cands[0] if len(cands) == 1 else None
+    if kind == "array":
+        cands = []
+        for did in fr.locals:
+            d = E.tu.decl.get(did)
+            if d is None or d.get("kind") != "VarDecl":
+                continue
+            q = d["type"]["qualType"]
+            if "[" in q and q.split("[")[0].strip() == arg:
+                cands.append(did)
+        return cands[0] if len(cands) == 1 else None
+    return None
 
 
 # ---------------------------------------------------------------------- verification of one function
